@@ -46,8 +46,8 @@ func TestVerifC16Coalesce(t *testing.T) {
 		first int
 	}
 	grid := []ck{
-		{"alone", 0},      // control: the message alone in its Write, as the Go code does
-		{"one-write", 1},  // message || 1 byte in one Write = one frame
+		{"alone", 0},     // control: the message alone in its Write, as the Go code does
+		{"one-write", 1}, // message || 1 byte in one Write = one frame
 		{"one-write", 300},
 		{"one-write", -1}, // message || data filling the frame exactly (1024 bytes)
 		{"one-write", -2}, // one byte more: the last data byte travels in a second frame
